@@ -84,6 +84,14 @@ class Ops:
                 return a * b
         if isinstance(op, ast.Mod) and isinstance(a, str):
             return self.str_mod(a, b)
+        if isinstance(op, (ast.BitAnd, ast.BitOr)) and \
+                isinstance(a, (bool, Sym)) and isinstance(b, (bool, Sym)) and \
+                (isinstance(a, bool) or a.kind == 'bool') and \
+                (isinstance(b, bool) or b.kind == 'bool'):
+            if isinstance(a, bool) and isinstance(b, bool):
+                return (a and b) if isinstance(op, ast.BitAnd) else (a or b)
+            f = z3.And if isinstance(op, ast.BitAnd) else z3.Or
+            return mk(f(z3bool(a), z3bool(b)))
         if not (_is_scalar(a) and _is_scalar(b)):
             raise Unsupported('binop %s on %r, %r' % (type(op).__name__,
                                                       type(a), type(b)))
@@ -292,6 +300,17 @@ class Ops:
             a = int(a)
         if isinstance(b, bool):
             b = int(b)
+        ia = type(a).__name__ == 'InfV'
+        ib = type(b).__name__ == 'InfV'
+        if ia or ib:
+            fa = a.f if ia else 0.0
+            fb = b.f if ib else 0.0
+            if (ia and fa != fa) or (ib and fb != fb):
+                return False
+            if not ((ia or is_num(a)) and (ib or is_num(b))):
+                raise Unsupported('comparison with inf')
+            return {ast.Lt: fa < fb, ast.LtE: fa <= fb, ast.Gt: fa > fb,
+                    ast.GtE: fa >= fb}[type(op)]
         if is_concrete_num(a) and is_concrete_num(b):
             return {ast.Lt: a < b, ast.LtE: a <= b, ast.Gt: a > b,
                     ast.GtE: a >= b}[type(op)]
@@ -374,6 +393,15 @@ class Ops:
                               for k, v in a.items()])
         if isinstance(a, SumV) or isinstance(b, SumV):
             return self.sum_equals(a, b)
+        # numpy scalar == list broadcasts element-wise (symbolic reals stem
+        # from numpy computations in this code base; a plain python float
+        # compared with a list would be False)
+        if isinstance(a, Sym) and a.kind in ('real', 'int') and \
+                isinstance(b, list) and b and all(is_num(x) for x in b):
+            return NDArr([self.equals(a, x) for x in b])
+        if isinstance(b, Sym) and b.kind in ('real', 'int') and \
+                isinstance(a, list) and a and all(is_num(x) for x in a):
+            return NDArr([self.equals(x, b) for x in a])
         if isinstance(a, NDArr) or isinstance(b, NDArr):
             da = a.data if isinstance(a, NDArr) else a
             db = b.data if isinstance(b, NDArr) else b
